@@ -166,7 +166,7 @@ def run_case(ctx, g, rng):
     # long strings (far above any plausible length threshold / recursion limit of a matcher): valid ones, and ones
     # spoilt by a single hostile character at the start, in the middle, at the end
     for _ in range(6):
-        n = rng.choice([300, 2000, 20000]) if tier == "thorough" else rng.choice([300, 1500])
+        n = rng.choice([300, 2000, 20000, 70000, 140000]) if tier == "thorough" else rng.choice([300, 1500, 70000])
         p = "".join(rng.choice("ab_Z9.-") for _ in range(n))
         p = rng.choice("ab_") + p
         r = "".join(rng.choice("ab/#?=9._-:") for _ in range(n))
